@@ -280,6 +280,10 @@ fn cli_case(ctx: &Ctx, ch: &mut Ch, scratch: &cli::Scratch) -> Outcome {
     };
     scratch.write("input.g", &bytes);
     let run = cli::run("check", &scratch.dir, "input.g").map_err(|e| Failure::new(e, "cli"))?;
+    if run.status == cli::TIMEOUT_STATUS {
+        ctx.inconclusive("cli: `gram check` was still going after 10 s");
+        return Ok(());
+    }
     let what = format!("file bytes {:?}", String::from_utf8_lossy(&bytes));
     let class = cli_contract(&run, &what)?;
     ctx.class(class);
